@@ -224,6 +224,18 @@ def additivity_case(draw):
     projection = draw(st.sampled_from(["infinite", "infinite", "finite"]))
     s = draw(structure(min_atoms=draw(st.sampled_from([0, 2, 2, 2])), max_atoms=6 if projection == "infinite" else 4, max_slices=4, gpts_hi=24 if projection == "infinite" else 16))
     n = len(s["numbers"])
+    if projection == "finite" and n >= 2 and draw(st.booleans()):
+        # wide cell (several cutoff radii across) with a light and a heavy species sharing the
+        # slices: only there a per-species cutoff can differ from a per-call one (added after
+        # seeded/C09-2: in a 3-9 A cell every cutoff disk covers the whole grid)
+        fx, fy = 14.0 / s["cell"][0], 16.0 / s["cell"][1]
+        s["cell"] = [14.0, 16.0, s["cell"][2]]
+        s["positions"] = [[round(p[0] * fx, 4), round(p[1] * fy, 4), p[2]] for p in s["positions"]]
+        light, heavy = draw(st.sampled_from([[8, 79], [6, 29], [1, 79], [8, 29]]))
+        s["numbers"] = [light, heavy] + [draw(st.sampled_from([light, heavy])) for _ in range(n - 2)]
+        s["positions"][1][2] = s["positions"][0][2]  # the first light and heavy atom share a slice
+        s["gpts"] = [draw(st.integers(18, 26)), draw(st.integers(18, 26))]
+        s["wide"] = True
     # with >= 2 atoms both sets are non-empty by construction; 0/1 atoms give the empty-set cases
     s["in_a"] = [True, False][:n] + [draw(st.booleans()) for _ in range(max(0, n - 2))]
     s["projection"] = projection
@@ -237,7 +249,7 @@ def additivity_case(draw):
     additivity_case,
     quick=500,
     thorough=6000,
-    tol="ulp32: max|P(AuB)-P(A)-P(B)| <= 1e-4*max|P(AuB)| (observed <= 5e-6)",
+    tol="ulp32: max|P(AuB)-P(A)-P(B)| <= 3e-5*max|P(AuB)| (observed <= 5e-6)",
     rule="both atom sets non-empty",
     nontrivial_floor=0.35,
     floors={"finite": 0.15, "shared_species": 0.2},
@@ -249,6 +261,7 @@ def check_additivity(case, ctx):
     idx_a = [i for i, f in enumerate(case["in_a"]) if f]
     idx_b = [i for i, f in enumerate(case["in_a"]) if not f]
     ctx.label(case["projection"])
+    ctx.label("wide_cell_mixed_species", bool(case.get("wide")))
     ctx.label("shared_species", bool({case["numbers"][i] for i in idx_a} & {case["numbers"][i] for i in idx_b}))
     ctx.nontrivial(bool(idx_a) and bool(idx_b))
 
@@ -271,7 +284,7 @@ def check_additivity(case, ctx):
     scale = max(tol.scale(both), tol.scale(ref))
     err = tol.max_err(both, ref)
     ctx.note("rel_err", err / scale if scale else 0.0)
-    if err > 1e-4 * scale:
+    if err > 3e-5 * scale:
         k = int(np.argmax(np.abs(both - ref).reshape(both.shape[0], -1).max(axis=1)))
         raise Violation(
             f"P(AuB) != P(A)+P(B): max error {err:.3e} (scale {scale:.3e}) in slice {k}; {case}",
